@@ -201,6 +201,24 @@ fn replay_one(e: &Entry, rec: &Value, modes_all: bool, cx: &mut Ctx) -> Value {
         }
     }
     large_collection(e, rec, &mv, &want, ver, cx);
+    // the convenience entry points over files on disk and in-memory buffers (every record in which all containers run)
+    if modes_all {
+        let dir = std::env::temp_dir().join(format!("verif_wire_{}", std::process::id()));
+        let _ = std::fs::create_dir_all(&dir);
+        match e.ops.helpers(&mv, ver, &dir) {
+            Outcome::Ok((bad, on_disk)) => {
+                for b in bad {
+                    cx.fail("c01.helper.roundtrip", format!("{} does not bring the value back equal", b));
+                }
+                let mut expect = header(ver, 0);
+                expect.extend_from_slice(&want);
+                if on_disk != expect {
+                    cx.fail("c02.helper.file_bytes", format!("save_file_noschema wrote {} bytes, the documented file has {}", on_disk.len(), expect.len()));
+                }
+            }
+            other => cx.fail("c01.helper.failed", format!("{:?}", other).chars().take(200).collect()),
+        }
+    }
     obs
 }
 
